@@ -195,7 +195,7 @@ type hostRun struct {
 	fail     string
 }
 
-func (h *hostRun) feed(f int) string { return fmt.Sprintf("h%df%d", h.k, f) }
+func (h *hostRun) feed(f int) string { return h.c.FeedPrefix + fmt.Sprintf("h%df%d", h.k, f) }
 
 func (h *hostRun) destCount(tag string) int {
 	flap.Lock()
@@ -342,7 +342,7 @@ func (h *hostRun) listing() []Rule {
 
 func runHost(c *Case) {
 	hostOnce.Do(startHost)
-	c.Outs, c.Lists, c.Panic, c.Hang, c.Detail, c.Retries, c.Starved = nil, nil, false, false, "", 0, false
+	c.Outs, c.Lists, c.Listed, c.Panic, c.Hang, c.Detail, c.Retries, c.Starved = nil, nil, nil, false, false, "", 0, false
 	if hostErr != nil {
 		c.Hang = true
 		c.Detail = hostErr.Error()
@@ -352,6 +352,9 @@ func runHost(c *Case) {
 	h := &hostRun{k: k, c: c, stream: fmt.Sprintf("stream/h%ds", k), destPath: fmt.Sprintf("/h%d/flap", k),
 		ctrl: map[int]*wsClient{}, pub: map[int]*wsClient{}, reg: map[int]bool{}}
 	destURL := "ws" + strings.TrimPrefix(hostDest.URL, "http") + h.destPath
+	// the names this run uses (for the oracle and the model case)
+	c.StreamNames = []string{"", h.stream}
+	c.FeedNames = []string{"", h.feed(1), h.feed(2), h.feed(3), h.feed(4)}
 	defer func() {
 		hostDo("DELETE", "/api/destinations/"+fmt.Sprintf("h%d", k), nil)
 		hostDo("DELETE", "/api/streams/"+h.stream, nil)
@@ -441,8 +444,15 @@ func runHost(c *Case) {
 		l := []Rule{}
 		if o.K != "B" {
 			l = h.listing()
+			// POST /api/streams returns when the hub has taken the rule, not when it has stored it,
+			// and GET reads the table unsynchronised: re-read for at most 1 s until the rule shows
+			for t0 := time.Now(); o.K == "Add" && time.Since(t0) < time.Second && !(len(l) == 1 && fmt.Sprint(l[0].F) == fmt.Sprint(o.F)); {
+				time.Sleep(2 * time.Millisecond)
+				l = h.listing()
+			}
 		}
 		c.Lists = append(c.Lists, l)
+		c.Listed = append(c.Listed, o.K != "B")
 	}
 }
 
@@ -456,6 +466,8 @@ func genHost(r *lib.Rng) Case {
 		feeds[i], feeds[j] = feeds[j], feeds[i]
 	}
 	feeds = feeds[:r.Range(2, 3)]
+	// plain feeds whose names merely begin with the letters "stream" are still plain feeds
+	c.FeedPrefix = []string{"", "", "streamcam/", "streams-", "stream2/"}[r.Intn(5)]
 	if r.Bool() {
 		c.Refuse, c.DelayMs = 2, 0 // back-off 1 s + 2 s: about 3 s
 	} else {
